@@ -781,6 +781,8 @@ class SArray:
     def __array_function__(self, func, types, args, kwargs):
         h = HANDLERS.get(func.__name__)
         if h is None:
+            if func.__name__ in _STRUCTURAL:
+                return _structural(func, args, kwargs)
             raise OutsideModel(f"numpy.{func.__name__} on a symbolic array")
         return h(*args, **kwargs)
 
@@ -885,6 +887,44 @@ _UFUNC_BIN = {
     "less": operator.lt, "less_equal": operator.le, "greater": operator.gt,
     "greater_equal": operator.ge, "equal": operator.eq, "not_equal": operator.ne,
 }
+
+
+# ----------------------------------------------------------------- layout-only NumPy functions
+
+# functions that only move elements around (no arithmetic, no comparison of element values): NumPy's own implementation
+# on the underlying object arrays is the model
+_STRUCTURAL = {"rot90", "roll", "tile", "repeat", "take", "split", "array_split", "hsplit", "vsplit", "dsplit", "hstack", "vstack",
+               "dstack", "column_stack", "atleast_1d", "atleast_2d", "diagonal", "fliplr", "flipud", "take_along_axis",
+               "delete", "resize", "block", "tril", "triu", "permute_dims", "matrix_transpose"}
+
+
+def _structural(func, args, kwargs):
+    dts = []
+
+    def unwrap(x):
+        if isinstance(x, SArray):
+            dts.append(x.dtype)
+            return x.a
+        if isinstance(x, (list, tuple)):
+            return type(x)(unwrap(y) for y in x)
+        if isinstance(x, (SBV, SInt)):
+            return x.__index__()
+        return x
+    a = unwrap(args)
+    k = {n: unwrap(v) for n, v in kwargs.items()}
+    if not dts or any(d != dts[0] for d in dts):
+        raise OutsideModel(f"numpy.{func.__name__} on arrays of different types")
+    if func.__name__ in ("tril", "triu", "resize"):
+        raise OutsideModel(f"numpy.{func.__name__} fills with zeros")
+    res = func(*a, **k)
+
+    def wrap(r):
+        if isinstance(r, real_np.ndarray):
+            return SArray(r, dts[0])
+        if isinstance(r, (list, tuple)):
+            return type(r)(wrap(y) for y in r)
+        return r
+    return wrap(res)
 
 
 # ----------------------------------------------------------------- handlers
@@ -1479,6 +1519,14 @@ class NPProxy:
         return real_np.asarray(x, dtype=dtype, **kw)
 
     asanyarray = asarray
+
+    def ascontiguousarray(self, x, dtype=None, **kw):
+        x = self.asarray(x, dtype)
+        return SArray(real_np.ascontiguousarray(x.a), x.dtype) if isinstance(x, SArray) else real_np.ascontiguousarray(x, **kw)
+
+    def asfortranarray(self, x, dtype=None, **kw):
+        x = self.asarray(x, dtype)
+        return SArray(real_np.asfortranarray(x.a), x.dtype) if isinstance(x, SArray) else real_np.asfortranarray(x, **kw)
 
     def array(self, x, dtype=None, copy=True, **kw):
         dtype = _unwrap_dtype(dtype)
